@@ -541,3 +541,220 @@ func UNFOLD_KindMatrix(h *rt.H) {
 		})
 	}
 }
+
+// ---- floats: float events into integer targets, integer events into float targets
+
+type numT interface {
+	intT | ~float32 | ~float64
+}
+
+// unfoldNum: deliver sends one numeric event carrying the small integer the target
+// type can hold exactly; T sits at one of four positions.
+func unfoldNum[T numT](h *rt.H, pos int, deliver func(structform.ExtVisitor) error, want T) {
+	var (
+		p0 []T
+		p1 map[string]T
+		p2 T
+		p3 struct {
+			B int8
+			A T
+		}
+	)
+	target := []interface{}{&p0, &p1, &p2, &p3}[pos]
+	u, err := gotype.NewUnfolder(target)
+	h.Assert("unfolder-created", err == nil)
+	if err != nil {
+		return
+	}
+	v := structform.EnsureExtVisitor(u)
+	step := func(e error) {
+		if err == nil {
+			err = e
+		}
+	}
+	byRef := h.Choose("keyRef", 0, 1) == 1
+	key := func(k string) {
+		if byRef {
+			buf := []byte(k)
+			step(v.OnKeyRef(buf))
+			buf[0] = 0xEE
+		} else {
+			step(v.OnKey(k))
+		}
+	}
+	switch pos {
+	case 0:
+		step(v.OnArrayStart(1, structform.AnyType))
+		step(deliver(v))
+		step(v.OnArrayFinished())
+	case 1:
+		step(v.OnObjectStart(1, structform.AnyType))
+		key("k")
+		step(deliver(v))
+		step(v.OnObjectFinished())
+	case 2:
+		step(deliver(v))
+	case 3:
+		step(v.OnObjectStart(-1, structform.AnyType))
+		key("a")
+		step(deliver(v))
+		step(v.OnObjectFinished())
+	}
+	h.Assert("no-error", err == nil)
+	var got T
+	ok := false
+	switch pos {
+	case 0:
+		if ok = len(p0) == 1; ok {
+			got = p0[0]
+		}
+	case 1:
+		got, ok = p1["k"]
+	case 2:
+		got, ok = p2, true
+	case 3:
+		got, ok = p3.A, p3.B == 0
+	}
+	h.Assert("shape", ok)
+	h.Assert("value", got == want)
+}
+
+// UNFOLD_FloatConv (C13): numbers cross the integer/float divide whenever the value
+// fits: a float32/float64 event with an integral value into each integer type, each
+// integer event kind into float32 and float64, float32 into float64 and back; the
+// value is one of four small integers (exactly representable everywhere), the target
+// sits in a slice, a map (key by value or by reference), alone, or in a struct.
+func UNFOLD_FloatConv(h *rt.H) {
+	// four concrete values: with a symbolic value every path needs floating-point
+	// conversion queries (about 1 s each, 26 minutes of solver time for the matrix);
+	// the all-values argument for conversions is UNFOLD_Conv's, this harness covers
+	// the type x event x position matrix
+	x := []int8{-3, 0, 7, 100}[h.Choose("x", 0, 3)]
+	pos := h.Choose("pos", 0, 3)
+	f32 := func(v structform.ExtVisitor) error { return v.OnFloat32(float32(x)) }
+	f64 := func(v structform.ExtVisitor) error { return v.OnFloat64(float64(x)) }
+	fl := f32
+	if h.Choose("f64", 0, 1) == 1 {
+		fl = f64
+	}
+	switch h.Choose("target", 0, 11) {
+	case 0:
+		unfoldNum(h, pos, fl, x)
+	case 1:
+		unfoldNum(h, pos, fl, int16(x))
+	case 2:
+		unfoldNum(h, pos, fl, int32(x))
+	case 3:
+		unfoldNum(h, pos, fl, int64(x))
+	case 4:
+		unfoldNum(h, pos, fl, int(x))
+	case 5:
+		h.Assume(x >= 0)
+		unfoldNum(h, pos, fl, uint8(x))
+	case 6:
+		h.Assume(x >= 0)
+		unfoldNum(h, pos, fl, uint16(x))
+	case 7:
+		h.Assume(x >= 0)
+		unfoldNum(h, pos, fl, uint32(x))
+	case 8:
+		h.Assume(x >= 0)
+		unfoldNum(h, pos, fl, uint64(x))
+	case 9:
+		h.Assume(x >= 0)
+		unfoldNum(h, pos, fl, uint(x))
+	case 10, 11:
+		// integer and float events into float targets
+		k := h.Choose("event", 0, 12)
+		if k >= 5 && k <= 10 {
+			h.Assume(x >= 0)
+		}
+		ev := func(v structform.ExtVisitor) error {
+			switch k {
+			case 11:
+				return v.OnFloat32(float32(x))
+			case 12:
+				return v.OnFloat64(float64(x))
+			}
+			return callScalar(k, uint64(int64(x)), v)
+		}
+		if h.Choose("wide", 0, 1) == 1 {
+			unfoldNum(h, pos, ev, float64(x))
+		} else {
+			unfoldNum(h, pos, ev, float32(x))
+		}
+	}
+}
+
+type ignTarget struct {
+	A int8
+	Z int8
+}
+
+// UNFOLD_Ignore (C13): an object member without a matching field is skipped whatever
+// it is: every scalar event kind (strings and keys by value and by reference), alone,
+// inside an array, inside an object, typed containers; the members around it are
+// assigned as usual.
+func UNFOLD_Ignore(h *rt.H) {
+	x := h.U64("x")
+	var to ignTarget
+	u, err := gotype.NewUnfolder(&to)
+	h.Assert("unfolder-created", err == nil)
+	v := structform.EnsureExtVisitor(u)
+	step := func(e error) {
+		if err == nil {
+			err = e
+		}
+	}
+	kind := h.Choose("kind", 0, 17)
+	scalar := func() {
+		switch {
+		case kind <= 12:
+			step(callScalar(kind, x, v))
+		case kind == 13:
+			step(v.OnBool(x&1 == 1))
+		case kind == 14:
+			step(v.OnNil())
+		case kind == 15:
+			step(v.OnString("s"))
+		case kind == 16:
+			step(v.OnStringRef([]byte("ref")))
+		case kind == 17:
+			step(v.OnInt8Array([]int8{int8(x), 2})) // extended event, expanded by the adapter
+		}
+	}
+	step(v.OnObjectStart(-1, structform.AnyType))
+	step(v.OnKey("a"))
+	step(v.OnInt8(int8(x)))
+	step(v.OnKey("unknown"))
+	switch h.Choose("nest", 0, 3) {
+	case 0:
+		scalar()
+	case 1:
+		step(v.OnArrayStart(2, structform.AnyType))
+		scalar()
+		scalar()
+		step(v.OnArrayFinished())
+	case 2:
+		step(v.OnObjectStart(-1, structform.AnyType))
+		step(v.OnKeyRef([]byte("k")))
+		scalar()
+		step(v.OnKey("kk"))
+		step(v.OnArrayStart(-1, structform.Int8Type))
+		scalar()
+		step(v.OnArrayFinished())
+		step(v.OnObjectFinished())
+	case 3:
+		step(v.OnArrayStart(1, structform.AnyType))
+		step(v.OnObjectStart(1, structform.AnyType))
+		step(v.OnKey("k"))
+		scalar()
+		step(v.OnObjectFinished())
+		step(v.OnArrayFinished())
+	}
+	step(v.OnKey("z"))
+	step(v.OnInt8(int8(x >> 8)))
+	step(v.OnObjectFinished())
+	h.Assert("no-error", err == nil)
+	h.Assert("neighbours", rt.And(to.A == int8(x), to.Z == int8(x>>8)))
+}
